@@ -1695,6 +1695,13 @@ func runC08(r *harness.Run) {
 	r.Extra["reject_list"] = len(c08Reject)
 	r.Extra["jobs"] = len(jobs)
 	c08Report(r, total)
+
+	// ---- goto/label placements the compiler must refuse (the refusal happens after parsing, in the
+	// code generator's label resolution): a syntax error, never a Go panic out of Load
+	{
+		pr := &progRunner{r: r, prop: "C08", opts: lua.Options{}, sigPrefix: "compile/"}
+		pr.runGens(map[string]Gen{"F-goto-invalid": genGotoInvalid(thorough)}, []string{"F-goto-invalid"})
+	}
 }
 
 func c08Report(r *harness.Run, total *c08Agg) {
